@@ -11,17 +11,17 @@ usage: difftest_tree.py [--nfmt 3200] [--nstores 300] [--nsynth 120] [--jobs 16]
 """
 import sys, os, base64, json, random, subprocess, re, argparse, shutil, time, multiprocessing
 
-sys.path.insert(0, '/verif/harness')
+sys.path.insert(0, os.path.dirname(os.path.abspath(__file__)))
 import common
 from common import Rpc, Store, cq_str, cq_bool, cq_list, cq_events, INTERN
 
 HERE = os.path.dirname(os.path.abspath(__file__))
-COQDIR = os.environ.get('COQDIR', '/verif/coq')
+COQDIR = os.environ.get('COQDIR', common.COQ)
 WORK = os.environ.get('TREE_WORK') or os.path.join(common.mkscratch('ergo-tree-'), 'work')
 if not os.path.exists(common.ERGO):
     alt = os.path.join(HERE, 'ergo')
     if not os.path.exists(alt):
-        subprocess.run(['go', 'build', '-tags', 'verif', '-o', alt, './cmd/ergo'], cwd='/repo', env=common.GOENV, check=True)
+        subprocess.run(['go', 'build', '-tags', 'verif', '-o', alt, './cmd/ergo'], cwd=common.REPO, env=common.GOENV, check=True)
     common.ERGO = alt
 
 HMOD = 2305843009213693951
